@@ -12,12 +12,18 @@ case "$target" in
   meta_total) cp $FZ/seeds/meta/* "$corpus"/; dict=$FZ/meta.dict; maxlen=2048 ;;
   meta_diff)  for f in $FZ/seeds/meta/*; do ( printf '\001'; cat "$f" ) > "$corpus/$(basename $f)"; done; dict=$FZ/meta.dict; maxlen=2048 ;;
   json_rfc)   cp $FZ/seeds/json/* "$corpus"/; dict=$FZ/json.dict; maxlen=1024 ;;
+  peg_struct) for i in 1 2 3 4 5 6 7 8; do python3 -c "
+import hashlib,sys
+s=('%s-%s'%(sys.argv[1],sys.argv[2])).encode(); out=b''
+while len(out)<3000: s=hashlib.sha256(s).digest(); out+=s
+sys.stdout.buffer.write(out)" "$seed" "$i" > "$corpus/seed$i"; done; dict=/dev/null; maxlen=4096 ;;
 esac
 cd $FZ || exit 2
-CARGO_NET_OFFLINE=true cargo +nightly fuzz build --fuzz-dir . "$target" > $WORK/fuzz-build-$target.log 2>&1 || { echo "INCONCLUSIVE property=$prop: fuzz target $target did not build (see $WORK/fuzz-build-$target.log)" >&2; exit 2; }
+# cargo-fuzz sets RUSTFLAGS itself (which hides [build] rustflags of .cargo/config.toml) but appends the caller's
+RUSTFLAGS="--cfg pest_parser_pest_verif" CARGO_NET_OFFLINE=true cargo +nightly fuzz build --fuzz-dir . "$target" > $WORK/fuzz-build-$target.log 2>&1 || { echo "INCONCLUSIVE property=$prop: fuzz target $target did not build (see $WORK/fuzz-build-$target.log)" >&2; exit 2; }
 bin=$FZ/target/x86_64-unknown-linux-gnu/release/$target
 log=$WORK/fuzz-$target.log
-( cd $WORK && "$bin" -artifact_prefix="$art/" -runs="$runs" -seed="$seed" -max_len=$maxlen -dict="$dict" -len_control=0 -timeout=20 -rss_limit_mb=4096 -jobs="$jobs" -workers="$jobs" "$corpus" > "$log" 2>&1 )
+( cd $WORK && "$bin" -artifact_prefix="$art/" -runs="$runs" -seed="$seed" -max_len=$maxlen $( [ "$dict" = /dev/null ] || echo -dict="$dict" ) -len_control=0 -timeout=20 -rss_limit_mb=4096 -jobs="$jobs" -workers="$jobs" "$corpus" > "$log" 2>&1 )
 rm -f $WORK/fuzz-[0-9]*.log
 execs=$(grep -hoE "Done [0-9]+ runs" "$log" | awk '{s+=$2} END {print s+0}')
 echo "fuzz target=$target property=$prop executions=$execs jobs=$jobs seed=$seed corpus_files=$(ls "$corpus" | wc -l)"
